@@ -63,7 +63,14 @@ def spec_symbolic_op(opname):
             raise TypeError("expressions don't have an order")
         return mk_bool(ZOP[opname](MZ.val(T.lift(e1)), MZ.val(T.lift(e2))))
 
-    g = {'_op': _op, 'simplify': simplify_nf, 'is_minus_prefix': is_minus_prefix_contract, 'symbolic_op': rec_contract}
+    isconst = z3.Function('is_constant', V, z3.BoolSort())
+
+    def is_constant_contract(e):
+        """CONTRACT of is_constant: a pure predicate of the expression (no further property is relied upon)"""
+        return mk_bool(isconst(T.lift(e)))
+
+    g = {'_op': _op, 'simplify': simplify_nf, 'is_minus_prefix': is_minus_prefix_contract, 'symbolic_op': rec_contract,
+         'is_constant': is_constant_contract, 'pmbl': pmbl, 'sym': sym}
     g['strip_minus_prefix'] = inline(F, 'strip_minus_prefix', dict(g, sym=sym, pmbl=pmbl, as_tuple=exprs.as_tuple))
 
     def setup(spec):
@@ -96,6 +103,7 @@ def spec_symbolic_op(opname):
     return FunctionSpec(PROP, F, 'symbolic_op', g, setup, post, raises=raises, variant=opname, theory=T,
                         lemmas=exprs.lemmas_for(MZ) + [simp.axiom] + op_axioms(MZ),
                         ground=lambda terms: ground_instances(ax, terms), decode=decode,
+                        budgets=(6_000_000, 4_000_000, 5_000_000, 60_000_000, 6_000_000, 240_000),
                         notes=['simplify through its C08 contract + normal form NF1 (assumed)',
                                'pymbolic e1 - e2 through the contract of the arithmetic overloads'])
 
